@@ -90,9 +90,13 @@ LHo(t) == <<"ho", t>>
 LTab(i, k) == <<"tab", i, k>>
 LEl(b, s) == <<"el", b, s>>
 LNpos(a) == <<"npos", a>>
+\* since /repo fix (buffersPos_ made a std::atomic<Index>): the concurrent accesses of buffersPos_ are atomic
+\* (allocateBuffer: relaxed load, release store AFTER the entry is written and the table published;
+\* numBuffers(): acquire load); no hook sits on them, the orders are read from the source
+LNposA(a) == <<"nposa", a>>
 LCap(a) == <<"cap", a>>
 
-ALocs == {<<k, a>> : k \in {"pos", "alloc", "bufs", "mtx"}, a \in ArenaNames} \cup {LHo(t) : t \in Threads}
+ALocs == {<<k, a>> : k \in {"pos", "alloc", "bufs", "mtx", "nposa"}, a \in ArenaNames} \cup {LHo(t) : t \in Threads}
 TabLocs == {LTab(i, k) : i \in 0 .. (MaxTabs - 1), k \in 0 .. (MaxCap - 1)}
 ElLocs == {LEl(b, s) : b \in 0 .. (MaxBufs - 1), s \in 0 .. (MaxBS - 1)}
 NposLocs == {LNpos(a) : a \in ArenaNames}
@@ -145,16 +149,16 @@ LdAll(h, t, a) == Ld(Ld(Ld(h, t, LPos(a), "relaxed"), t, LAlloc(a), "relaxed"), 
 
 \* allocateBuffer() of arena a whose record is r, next table id tid
 HAllocBufR(h, t, a, r, tid) ==
-  LET h0 == NR(NR(h, t, LNpos(a)), t, LCap(a))                \* if (buffersPos_ < buffersSize_)
+  LET h0 == NR(Ld(h, t, LNposA(a), "relaxed"), t, LCap(a))     \* pos = buffersPos_.load(relaxed); if (pos < buffersSize_)
   IN IF r.npos < r.cap
        THEN \* buffers_.load(acquire)[buffersPos_++] = ptr: written IN PLACE in the published table
-            NW(NW(Ld(h0, t, LBufs(a), OUo("AbLdBuf", 1, "acquire")), t, LTab(r.tab, r.npos)), t, LNpos(a))
+            Sto(NW(Ld(h0, t, LBufs(a), OUo("AbLdBuf", 1, "acquire")), t, LTab(r.tab, r.npos)), t, LNposA(a), "release")
        ELSE LET h1 == NW(Ld(h0, t, LBufs(a), OUo("AbLdBuf", 2, "acquire")), t, LCap(a))     \* buffersSize_ = ...
                 old == IF r.tab = Null THEN {} ELSE 0 .. (r.cap - 1)
                 h2 == NWSet(NRSet(h1, t, {LTab(r.tab, k) : k \in old}), t, {LTab(tid, k) : k \in old})  \* memcpy
                 h3 == IF r.tab = Null THEN h2 ELSE NW(h2, t, LCap(a))                       \* deleteLater_.push_back
-                h4 == NW(NW(h3, t, LTab(tid, r.npos)), t, LNpos(a))                         \* newBuffers[buffersPos_++] = ptr
-            IN Sto(h4, t, LBufs(a), OU("AbStBuf", "release"))                              \* buffers_.store(newBuffers)
+                h4 == NW(h3, t, LTab(tid, r.npos))                                          \* newBuffers[pos] = ptr
+            IN Sto(Sto(h4, t, LBufs(a), OU("AbStBuf", "release")), t, LNposA(a), "release")   \* buffers_.store(newBuffers); buffersPos_.store(pos + 1, release)
 
 \* ------------------------------------------------------------------------ the hooked accesses
 HCas(t) ==
@@ -208,7 +212,7 @@ HSeq(t) ==
        [] o.op = "del" ->
             NWSet(Ld(NRSet(hb, t, FldLocs(o.ar)), t, LBufs(o.ar), "acquire"), t, OwnedLocs(H, o.ar))
        [] o.op = "bufsize" ->
-            Ld(NR(hb, t, LNpos(o.ar)), t, LPos(o.ar), "relaxed")
+            Ld(Ld(hb, t, LNposA(o.ar), "acquire"), t, LPos(o.ar), "relaxed")
 
 \* ------------------------------------------------------------------------ ghost operations of the overlay
 GhostOps == {"pub", "acq", "szidx"}
@@ -252,7 +256,7 @@ HStep(t) ==
   \/ IdxLdBuf(t) /\ hb' = HIdx(t)
   \/ SizeLd(t) /\ hb' = Ld(hb, t, LPos(Op(t).ar), OS("SizeLd"))
   \/ CapLd(t) /\ hb' = Ld(hb, t, LAlloc(Op(t).ar), OS("CapLd"))
-  \/ NumBuf(t) /\ hb' = NR(hb, t, LNpos(Op(t).ar))                                 \* return buffersPos_;
+  \/ NumBuf(t) /\ hb' = Ld(hb, t, LNposA(Op(t).ar), "acquire")                     \* return buffersPos_.load(acquire);
   \/ GetBufLd(t) /\ hb' = HGetBuf(t)
   \/ pc[t] = "SeqOp" /\ Op(t).op \notin GhostOps /\ SeqOp(t) /\ hb' = HSeq(t)
   \/ Pub(t) \/ Acq(t) \/ SzIdx(t)
